@@ -102,6 +102,22 @@ def reason_variants(F):
 
 
 # ---------------------------------------------------------------------------- inlining
+def project_field(e, inner):
+    """field projection `e` (a ("field", name, owner, variant, _) node) applied to the already transformed `inner`:
+    resolved against aggregates; the payload of another variant does not exist (dropped from alternatives)"""
+    def one(a):
+        if a[0] == "agg" and a[1] not in ("partial",):
+            if a[2] and e[3] and a[2] != e[3]:
+                return ("unknown", "variant-mismatch")
+            for f, fe in a[3]:
+                if f == e[1]:
+                    return fe
+        return ("field", e[1], e[2], e[3], a)
+    if inner[0] == "phi":
+        return mkphi(tuple(one(a) for a in inner[1]))
+    return one(inner)
+
+
 def subst_params(e, callee_cdef, args, _d=0):
     if not isinstance(e, tuple) or not e or _d > 100:
         return e
@@ -113,11 +129,7 @@ def subst_params(e, callee_cdef, args, _d=0):
         return ("call", e[1], tuple(subst_params(a, callee_cdef, args, _d + 1) for a in e[2]), e[3], e[4])
     if h == "field":
         inner = subst_params(e[4], callee_cdef, args, _d + 1)
-        if inner[0] == "agg":
-            for fn, fe in inner[3]:
-                if fn == e[1] and (not inner[2] or not e[3] or inner[2] == e[3]):
-                    return fe
-        return ("field", e[1], e[2], e[3], inner)
+        return project_field(e, inner)
     if h == "phi":
         return mkphi(tuple(subst_params(a, callee_cdef, args, _d + 1) for a in e[1]))
     if h == "agg":
@@ -234,21 +246,7 @@ def map_expr(e, fn, _d=0):
         e2 = ("call", e[1], tuple(map_expr(a, fn, _d + 1) for a in e[2]), e[3], e[4])
     elif h == "field":
         inner = map_expr(e[4], fn, _d + 1)
-        e2 = ("field", e[1], e[2], e[3], inner)
-        if inner[0] == "agg":
-            for f, fe in inner[3]:
-                if f == e[1] and (not inner[2] or not e[3] or inner[2] == e[3]):
-                    e2 = fe
-        elif inner[0] == "phi":
-            outs = []
-            for a in inner[1]:
-                x = ("field", e[1], e[2], e[3], a)
-                if a[0] == "agg":
-                    for f, fe in a[3]:
-                        if f == e[1] and (not a[2] or not e[3] or a[2] == e[3]):
-                            x = fe
-                outs.append(x)
-            e2 = mkphi(tuple(outs))
+        e2 = project_field(e, inner)
     elif h == "phi":
         e2 = mkphi(tuple(map_expr(a, fn, _d + 1) for a in e[1]))
     elif h == "agg":
@@ -341,33 +339,136 @@ def inline_pure(F, X, e, depth=3, keep=()):
     return map_expr(e, f)
 
 
-def alternatives_with_facts(F, X, e, depth=3, keep=()):
+def alternatives_with_facts(F, X, e, depth=3, keep=(), with_cmp=False):
     """[(alternative, [(fact expr, variants)])]: the alternatives of value `e`, each with the Option/Result variant facts
     that hold at the place where that alternative is produced (`match x { Some(_) => A, None => B }` gives A with
     (x, Some) and B with (x, None)); calls of local pure helpers are looked through, their parameters bound to the
-    arguments, so that `let v = match ..` inline and `v: helper(..)` give the same answer."""
+    arguments, so that `let v = match ..` inline and `v: helper(..)` give the same answer.  `x?` / `(x as Ok).0` of a
+    helper's result keeps the helper's Ok(..) alternatives only (the Err ones leave the function).
+    with_cmp: triples (alternative, variant facts, [(a, op, b)]) including the comparisons that hold there."""
     out = []
+
+    def sub(fe, cb, args):
+        return strip(subst_params(fe, cb.cdef, args))
+
     for a in alts(strip(e)):
         done = False
-        if a[0] == "call" and depth > 0:
+        if a[0] in ("try",) or (a[0] == "field" and a[1] == "0" and a[3] in ("Ok", "Some", "Continue")):
+            inner = a[1] if a[0] == "try" else a[4]
+            want = ("Ok", "Some") if a[0] == "try" else ((a[3],) if a[3] != "Continue" else ("Ok", "Some"))
+            res = alternatives_with_facts(F, X, inner, depth, keep, True)
+            if any(x[0][0] == "agg" and x[0][2] in ("Ok", "Some", "Err", "None") for x in res):
+                for ia, vf, cf in res:
+                    if ia[0] == "agg" and ia[2] in want and ia[3]:
+                        out.append((ia[3][0][1], vf, cf))
+                    elif ia[0] == "agg" and ia[2] in ("Err", "None", "Ok", "Some"):
+                        continue
+                    else:
+                        out.append(((a[0], ia) if a[0] == "try" else ("field", a[1], a[2], a[3], ia), vf, cf))
+                done = True
+        if not done and a[0] == "call" and depth > 0:
             name = a[4].resolved or a[1]
             cb = F.by_cdef.get(name)
             fi = F.fns.get(name)
             kept = keep(name) if callable(keep) else (name in keep)
             if cb is not None and cb.kind in ("Fn", "AssocFn") and not derive_like(cb) and not (fi and fi.get("async")) and not kept:
                 r = strip(X.local(cb, 0))
-                for ra, facts in alternatives_with_facts(F, X, r, depth - 1, keep):
-                    out.append((strip(subst_params(ra, cb.cdef, a[2])), [(strip(subst_params(fe, cb.cdef, a[2])), t) for fe, t in facts]))
+                for ra, vf, cf in alternatives_with_facts(F, X, r, depth - 1, keep, True):
+                    out.append((sub(ra, cb, a[2]), [(sub(fe, cb, a[2]), t) for fe, t in vf], [(sub(x, cb, a[2]), op, sub(y, cb, a[2])) for x, op, y in cf]))
                 done = True
         if not done:
             site = a[4] if a[0] == "agg" else (a[3] if a[0] in ("call",) else (a[4] if a[0] == "bin" else None))
-            facts = []
+            vf, cf = [], []
             if isinstance(site, tuple) and len(site) >= 2 and isinstance(site[1], int) and site[1] >= 0 and site[0] in F.by_cdef:
                 sb = F.by_cdef[site[0]]
                 if site[1] < len(sb.blocks):
-                    facts = [(fe, t) for fe, t, _c in lib.variant_facts(sb, X, site[1])]
-            out.append((a, facts))
+                    vf = [(fe, t) for fe, t, _c in lib.variant_facts(sb, X, site[1])]
+                    cf = [(x, op, y) for x, op, y, _bb in lib.order_facts(sb, X, site[1])]
+            out.append((a, vf, cf))
+    if with_cmp:
+        return out
+    return [(a, vf) for a, vf, cf in out]
+
+
+PAYLOAD_VARIANTS = {"Ok": ("Ok",), "Some": ("Some",), "Continue": ("Ok", "Some"), "Ready": ("Ready",)}
+
+
+def def_alternatives(F, X, body, op, depth=4, want=None, keep=(), _seen=None, _file=None):
+    """definition-site view of a value: [(expr, variant facts, comparison facts, where)] - one entry per *assignment* that
+    can produce the value of operand `op` (not per distinct expression: two arms assigning the same expression stay two
+    entries, each with the facts of its arm).  Follows moves/copies, the payload projections `(x as Ok).0`, `x?`, and
+    calls of local pure helpers (into their `return` assignments, parameters bound to the arguments); the facts of the
+    enclosing sites are accumulated.  `want`: only aggregates of these variants contribute their payload."""
+    _seen = _seen or set()
+    _file = _file or body.span.get("f")
+    out = []
+
+    def facts(b, bb):
+        return ([(fe, t) for fe, t, _c in lib.variant_facts(b, X, bb)], [(x, o, y) for x, o, y, _bb in lib.order_facts(b, X, bb)])
+
+    def opaque(e, b, bb):
+        vf, cf = facts(b, bb) if bb is not None else ([], [])
+        return [(strip(e), vf, cf, (b.cdef, bb))]
+
+    if op["k"] == "const":
+        return [(strip(X.operand(body, op)), [], [], None)]
+    pl = op["pl"]
+    l = pl["l"]
+    projs = [p for p in pl["p"] if p["k"] != "deref"]
+    key = (body.def_, l, json_key(projs), want)
+    if key in _seen or depth < 0:
+        return opaque(X.operand(body, op), body, None)
+    _seen = _seen | {key}
+    if projs:
+        if len(projs) == 2 and projs[0]["k"] == "downcast" and projs[1]["k"] == "field" and projs[1]["n"] == "0" and projs[0]["v"] in PAYLOAD_VARIANTS:
+            return def_alternatives(F, X, body, {"k": "move", "pl": {"l": l, "p": []}}, depth, PAYLOAD_VARIANTS[projs[0]["v"]], keep, _seen, _file)
+        return opaque(X.operand(body, op), body, None)
+    if 1 <= l <= body.arg_count:
+        return opaque(X.operand(body, op), body, None)
+    for (bi, si, proj, kind, payload, sp) in body.defs.get(l, []):
+        if proj and not all(p["k"] == "deref" for p in proj):
+            continue
+        vf0, cf0 = facts(body, bi)
+        if kind == "rv":
+            rv = payload
+            if rv["k"] == "use" and rv["op"]["k"] in ("copy", "move"):
+                for e, vf, cf, wh in def_alternatives(F, X, body, rv["op"], depth, want, keep, _seen, _file):
+                    out.append((e, vf0 + vf, cf0 + cf, wh or (body.cdef, bi)))
+                continue
+            if rv["k"] == "agg" and rv.get("ak") == "adt" and want is not None and rv.get("variant") in ("Ok", "Some", "Err", "None", "Ready", "Pending"):
+                if rv["variant"] in want and rv["ops"]:
+                    for e, vf, cf, wh in def_alternatives(F, X, body, rv["ops"][0], depth, None, keep, _seen, _file):
+                        out.append((e, vf0 + vf, cf0 + cf, (body.cdef, bi)))
+                continue
+            e = strip(X.rvalue(body, rv, (body.cdef, bi, loc(sp)), 0))
+            out.append((e if want is None else ("field", "0", "", want[0], e), vf0, cf0, (body.cdef, bi)))
+        elif kind == "call":
+            c = Call(body, bi, payload)
+            name = c.resolved or c.name
+            if c.name == "std::ops::Try::branch" and c.args and want is not None:
+                for e, vf, cf, wh in def_alternatives(F, X, body, c.args[0], depth, ("Ok", "Some"), keep, _seen, _file):
+                    out.append((e, vf0 + vf, cf0 + cf, wh))
+                continue
+            cb = F.by_cdef.get(name)
+            fi = F.fns.get(name)
+            kept = keep(name) if callable(keep) else (name in keep)
+            if cb is not None and cb.kind in ("Fn", "AssocFn") and not derive_like(cb) and not (fi and fi.get("async")) and not kept and depth > 0 \
+                    and cb.span.get("f") == _file and not name.startswith("<"):
+                args = tuple(strip(X.operand(body, a)) for a in c.args)
+                for e, vf, cf, wh in def_alternatives(F, X, cb, {"k": "move", "pl": {"l": 0, "p": []}}, depth - 1, want, keep, _seen, _file):
+                    s1 = lambda x: strip(subst_params(x, cb.cdef, args))   # noqa
+                    out.append((s1(e), vf0 + [(s1(fe), t) for fe, t in vf], cf0 + [(s1(x), o, s1(y)) for x, o, y in cf], wh))
+                continue
+            e = strip(X.call(body, bi, payload, 0))
+            out.append((e if want is None else ("field", "0", "", want[0], e), vf0, cf0, (body.cdef, bi)))
+        else:
+            out.append((("resume",), vf0, cf0, (body.cdef, bi)))
     return out
+
+
+def json_key(x):
+    import json
+    return json.dumps(x, sort_keys=True)
 
 
 def derive_like(b):
